@@ -28,6 +28,7 @@ type job struct {
 	Trace     string `json:"trace"`      // full event log of each run (determinism self-test, debugging)
 	MaxWallS  int    `json:"max_wall_s"`
 	Scale     int    `json:"scale"` // thorough: multiplies the chaos length
+	Prop      string `json:"prop"`  // the property the check decides
 }
 
 type runResult struct {
@@ -50,6 +51,7 @@ type runResult struct {
 	Nontrivial map[string]bool  `json:"nontrivial"`
 	Digests   int               `json:"digests"`
 	Sample    interface{}       `json:"sample,omitempty"`
+	Incidental []*violation     `json:"incidental,omitempty"`
 }
 
 type replayFile struct {
@@ -61,6 +63,7 @@ type replayFile struct {
 	Seed      uint64                 `json:"seed"`
 	Profile   string                 `json:"profile"`
 	Scale     int                    `json:"scale"`
+	Target    string                 `json:"target"`
 	Config    runConfig              `json:"config"`
 	Tape      [rt.NStreams][]uint32  `json:"tape"`
 	Tail      []string               `json:"events_tail"`
@@ -70,6 +73,7 @@ type replayFile struct {
 
 func runOne(seed uint64, prof profile, tape *rt.Tape, jb *job) (res runResult, run *simRun) {
 	run = newSimRun(seed, prof, tape, synctest.Wait)
+	run.target = jb.Prop
 	if jb.Scale > 1 {
 		run.cfg.ChaosLen *= time.Duration(jb.Scale)
 	}
@@ -103,6 +107,7 @@ func runOne(seed uint64, prof profile, tape *rt.Tape, jb *job) (res runResult, r
 	}
 	res = runResult{Seed: seed, Profile: prof.Name, Steps: run.sim.Steps, SimNS: run.sim.Now, Hash: fmt.Sprintf("%016x", run.sim.Hash),
 		Config: run.cfg, Faults: run.st.Faults, Reach: run.st.Reach, Violation: run.viol, Infra: run.infra, Phase: run.phase}
+	res.Incidental = run.incid
 	res.Counters = run.counters()
 	res.Nontrivial = run.nontrivial()
 	res.Digests = len(run.digests)
@@ -153,7 +158,7 @@ func writeReplay(jb *job, res *runResult, run *simRun, tape *rt.Tape) string {
 	}
 	_ = os.MkdirAll(jb.ReplayDir, 0755)
 	rf := replayFile{Property: res.Violation.Prop, Oracle: res.Violation.Oracle, Signature: res.Violation.Sig, Message: res.Violation.Msg,
-		Step: res.Violation.Step, Seed: res.Seed, Profile: res.Profile, Scale: jb.Scale, Config: res.Config, Tape: tape.Out, Hash: res.Hash}
+		Step: res.Violation.Step, Seed: res.Seed, Profile: res.Profile, Scale: jb.Scale, Target: jb.Prop, Config: res.Config, Tape: tape.Out, Hash: res.Hash}
 	for _, e := range run.sim.Tail(80) {
 		rf.Tail = append(rf.Tail, fmt.Sprintf("%d t=%d %c %d %s %s", e.Step, e.Now, e.Kind, e.ID, run.sim.SiteName(e.Site), e.Name))
 	}
@@ -207,6 +212,7 @@ func TestSimWorker(t *testing.T) {
 			t.Fatalf("unknown profile %q", rf.Profile)
 		}
 		jb.Scale = rf.Scale
+		jb.Prop = rf.Target
 		tape := rt.NewReplayTape(rf.Seed, rf.Tape)
 		var res runResult
 		var run *simRun
